@@ -90,6 +90,11 @@ CLAIMED = {
          "TLC checks for every name over the component alphabet (parent, self, empty, dot-prefixed and ordinary components; leading/trailing separators) that the PAR2 and PAR1 acceptance rules imply lexical containment; each of those names is then placed at a position of an otherwise valid, fully repairable PAR2 and PAR1 archive written by the reference writers, with the declared files missing, inside a canary tree with decoys where an escaping name would land; the real Verify and Repair run, the whole tree is snapshotted before and after, and TLC asserts that nothing outside the archive's directory tree (PAR1: the directory itself) was created, modified or deleted; PAR2 Create is checked to refuse inputs outside the index file's tree and to write nothing when it refuses.",
          "Lexical containment only (no symlinks); bounded name length/alphabet.",
          "DESIGN.md section 5 C15"),
+ "C13": ("model_checking",
+         "MC_C13.tla: TLC enumerates structural corruption / truncation / interrupted-Create descriptors and checks result truthfulness on the reader model; each descriptor (plus PAR1 analogue and byte-level fuzz) mapped to bytes by the independent tokenizer and run through real Verify/Repair in crash-containing batch worker processes; TLC judges termination, truthfulness, write discipline",
+         "The corruption space is a TLA+ model: 1,658 descriptors for PAR2 (bit flips per packet region, cuts at and inside every packet, emptied/garbage/deleted files, deleted subsets, every prefix of Create's writes torn at every packet boundary, with/without data damage) on which TLC checks that the reader model only ever reports intact blocks and needs an intact index; the harness maps every descriptor to byte offsets with its own tokenizer, adds the PAR1 analogue and seeded byte-level flips and cuts (about 2,850 cases quick, 13,000 thorough), and executes the real Verify and Repair in batch worker processes that announce each case, so that a panic, a fatal runtime error, the address-space limit or a hang is attributed to its case and re-run alone; TLC judges every event: terminated normally, any result reports no more usable recovery blocks / volumes / slices than independent observers find intact, Repair wrote only exact originals, success means restored.",
+         "Error-versus-skip on damaged files left open as in the property; one base set per format.",
+         "DESIGN.md section 5 C13"),
 }
 
 NOT_YET = "check under construction in this round; not claimed until it runs green on the unchanged tree"
